@@ -359,6 +359,10 @@ class RuntimeState(utils.NiceRepr):
                 # Determine if this impacts the local (inline) or global state.
                 if directive.inline:
                     state = self._inline_state
+                    if action in {'set.add', 'set.remove'} and key not in state:
+                        # the inline overlay of a set starts as a copy of the
+                        # persistent set, which must stay untouched
+                        state[key] = set(self._global_state[key])
                 else:
                     state = self._global_state
 
